@@ -27,6 +27,7 @@ type c18Spec struct {
 	RepState []string `json:"replica_state"`    // semisync stopped not_semisync no_report
 	StartRO  string   `json:"master_initially"` // writable read_only super_read_only
 	Then     []int    `json:"master_usage_later"`
+	SlowHC   bool     `json:"master_daemon_health_check_every_20s"` // legal: the hosts' health-check intervals differ (manager 5 s)
 	ROFails  bool     `json:"read_only_statements_fail_in_the_first_phase"` // every SET read_only on the master fails with 1205 until the usage changes
 }
 
@@ -48,6 +49,7 @@ func c18Gen(seed int64, idx int) c18Spec {
 		sp.Then = append(sp.Then, c18Levels[r.Intn(len(c18Levels))])
 	}
 	sp.ROFails = r.Intn(4) == 0
+	sp.SlowHC = r.Intn(4) == 0
 	return sp
 }
 
@@ -94,7 +96,13 @@ func c18Run(u *Unit) {
 			c.Failover = false
 			c.InactivationDelay = 3600 * time.Second // membership stays put: this check is about the guard
 			c.ExcludeUsers = []string{"admin"}
+			if sp.SlowHC && h == master {
+				c.HealthCheckInterval = 20 * time.Second
+			}
 		}}
+	if sp.SlowHC && sp.N >= 2 && !noDaemon[hosts[1]] {
+		opts.FirstDaemon = hosts[1] // the manager runs with the default interval, the master's daemon with the long one
+	}
 	u.Scenario(fmt.Sprintf("c18-%d-m%d-%s", u.Idx, sp.MasterDU, sp.StartRO), sp, opts, func(sc *Scen) {
 		s := sc.S
 		w := s.W
